@@ -489,6 +489,9 @@ def list_binop(E, op, a, b, node):
             if owner is not None and owner in E.st.fresh:
                 pass
             return g
+        if isinstance(k, Z) and k.ty == INT and len(items) == 1 and items[0] is None:
+            from . import grid
+            return grid.grid(E, (simp(z3.If(k.t > 0, k.t, z3.IntVal(0))),), 1, (lambda i: grid._opq(grid.NONE_OPTS)), 'list')
         if isinstance(k, int):
             r = items * k
             return PyList(E.new_ident(), r) if not isinstance(lst, tuple) else tuple(r)
